@@ -333,6 +333,7 @@ func MakeBatchInto(b *index.Batch, uid int, ops []Op) (*index.Batch, []string, [
 				AddField(bluge.NewKeywordField("u", strconv.Itoa(uid)).StoreValue().Sortable()).
 				AddField(bluge.NewKeywordField("k", strconv.Itoa(k)).StoreValue()).
 				AddField(bluge.NewKeywordField("tag", op.ID+"."+strconv.Itoa(uid)).StoreValue()).
+				AddField(bluge.NewKeywordField("Title", "t-"+op.ID).StoreValue()). // a name that sorts before _id
 				AddField(bluge.NewTextField("body", "w"+op.ID+" common v"+strconv.Itoa(uid)))
 			if op.Kind == "upd" {
 				b.Update(bluge.Identifier(op.ID), d)
@@ -393,13 +394,14 @@ type Obs struct {
 	Docs   []Doc     `json:"docs"`   // match-all enumeration with stored fields
 	ByID   []Doc     `json:"byid"`   // union of per-id term lookups
 	Dict   []DictEnt `json:"dict"`   // dictionary scan of field _id (deep observations only)
+	Fields []string  `json:"fields"` // Reader.Fields(), sorted copy (deep observations only)
 	Sorted []Doc     `json:"sorted"` // doc values: sorted by u
 	Err    string    `json:"err"`
 }
 
 // ErrObs is an observation that failed as a whole (no nil slices: the trace reader rejects JSON null).
 func ErrObs(msg string) Obs {
-	return Obs{Docs: []Doc{}, ByID: []Doc{}, Dict: []DictEnt{}, Sorted: []Doc{}, Err: msg}
+	return Obs{Docs: []Doc{}, ByID: []Doc{}, Dict: []DictEnt{}, Sorted: []Doc{}, Fields: []string{}, Err: msg}
 }
 
 func sortDocs(d []Doc) {
@@ -439,7 +441,7 @@ func Observe(r *bluge.Reader, ids []string, deep bool) (o Obs) {
 			o.Err = fmt.Sprintf("panic: %v", p)
 		}
 	}()
-	o.Docs, o.ByID, o.Dict, o.Sorted = []Doc{}, []Doc{}, []DictEnt{}, []Doc{}
+	o.Docs, o.ByID, o.Dict, o.Sorted, o.Fields = []Doc{}, []Doc{}, []DictEnt{}, []Doc{}, []string{}
 	n, err := r.Count()
 	if err != nil {
 		o.Err = err.Error()
@@ -490,6 +492,14 @@ func Observe(r *bluge.Reader, ids []string, deep bool) (o Obs) {
 			return
 		}
 		o.Sorted = append(o.Sorted, docOf(r, m.Number))
+	}
+	// the field list (a copy, sorted: the order in which segments contribute is not part of the answer)
+	if fs, ferr := r.Fields(); ferr != nil {
+		o.Err = ferr.Error()
+		return
+	} else {
+		o.Fields = append(o.Fields, fs...)
+		sort.Strings(o.Fields)
 	}
 	// dictionary scan of the identifier field (includes ids whose documents are only marked deleted)
 	di, err := r.DictionaryIterator("_id", nil, nil, nil)
